@@ -1,6 +1,6 @@
 (** Proofs for model/SysPanic.v: the panic sites of the drawing system are unreachable from
     valid histories; API misuse panics exactly at the documented sites (C18 no-panic clause). *)
-From IndModel Require Import SysPanic.
+From IndModel Require Import Term SysPanic.
 From IndProofs Require Import TermProofs TermBottomProofs MultiProofs.
 From Coq Require Import Lia ZifyBool ZifyNat ZifyN Bool.
 Arguments N.add : simpl never.
@@ -60,65 +60,47 @@ Proof.
   - intros i Hi. apply remove_idx_keeps_known. apply Hz. right. exact Hi.
 Qed.
 
-(* ------------------------------------------------------------------ rows: Rust vs model *)
-Lemma wrapped_height_rs_eq l W : 1 <= W -> wrapped_height_rs l W = wrapped_height l W.
-Proof. intros HW. unfold wrapped_height_rs. destruct (N.eqb_spec W 0); [lia | reflexivity]. Qed.
-
-Lemma vlc_rs_le_acc ls W : 1 <= W -> forall a b, a <= b ->
-  fold_left (fun acc l => N.min USIZE_MAX (acc + wrapped_height_rs l W)) ls a
-  <= fold_left (fun acc l => acc + wrapped_height l W) ls b.
+(* ------------------------------------------------------------------ the zombie scan *)
+Lemma scan_np order mems :
+  (forall i, In i order -> (N.to_nat i < length mems)%nat) -> scan_panics order mems = None.
 Proof.
-  intros HW. induction ls as [|l r IH]; intros a b Hab; cbn [fold_left]; [exact Hab|].
-  apply IH. rewrite wrapped_height_rs_eq by exact HW. lia.
-Qed.
-
-Lemma vlc_rs_le ls W : 1 <= W -> visual_line_count_rs ls W <= visual_line_count ls W.
-Proof. intros HW. apply vlc_rs_le_acc; [exact HW | lia]. Qed.
-
-Lemma member_vlc_rs_le mem W : 1 <= W -> member_vlc_rs mem W <= member_vlc mem W.
-Proof. intros HW. unfold member_vlc_rs, member_vlc. destruct (m_lines mem); [apply vlc_rs_le; exact HW | lia]. Qed.
-
-(** the sum the zombie scan accumulates, as [MultiSpec.zombie_rows] writes it *)
-Definition hz_rows (W : N) (order : list N) (mems : list member) : N :=
-  fold_left (fun a i => a + member_vlc (nthN mems i member_default) W) (head_zombies order mems) 0.
-
-Lemma fold_rows_acc W mems zs : forall a,
-  fold_left (fun a i => a + member_vlc (nthN mems i member_default) W) zs a
-  = a + fold_left (fun a i => a + member_vlc (nthN mems i member_default) W) zs 0.
-Proof.
-  induction zs as [|z r IH]; intros a; cbn [fold_left]; [lia|].
-  rewrite IH, (IH (0 + _)). lia.
-Qed.
-
-Lemma hz_rows_cons W i r mems :
-  hz_rows W (i :: r) mems =
-  if m_zombie (nthN mems i member_default)
-  then member_vlc (nthN mems i member_default) W + hz_rows W r mems else 0.
-Proof.
-  unfold hz_rows. cbn [head_zombies]. destruct (m_zombie (nthN mems i member_default)); [|reflexivity].
-  cbn [fold_left]. rewrite fold_rows_acc. lia.
-Qed.
-
-Lemma scan_np W order mems : 1 <= W ->
-  (forall i, In i order -> (N.to_nat i < length mems)%nat) ->
-  forall adj, adj + hz_rows W order mems < USIZE -> scan_panics W order mems adj = None.
-Proof.
-  intros HW. induction order as [|i r IH]; intros Hb adj Hsum; cbn [scan_panics]; [reflexivity|].
+  induction order as [|i r IH]; intros Hb; cbn [scan_panics]; [reflexivity|].
   rewrite oob_false by (apply Hb; left; reflexivity).
-  rewrite hz_rows_cons in Hsum.
-  destruct (m_zombie (nthN mems i member_default)) eqn:Hz; cbn [negb]; [|reflexivity].
-  pose proof (member_vlc_rs_le (nthN mems i member_default) W HW) as Hle.
-  destruct (N.leb_spec USIZE (adj + member_vlc_rs (nthN mems i member_default) W)); [lia|].
-  apply IH; [intros j Hj; apply Hb; right; exact Hj | lia].
+  destruct (negb (m_zombie (nthN mems i member_default))); [reflexivity|].
+  apply IH. intros j Hj. apply Hb. right. exact Hj.
 Qed.
 
-(* ------------------------------------------------------------------ draw_to_term *)
-Lemma paint_np W H : H < USIZE -> forall ls real, paint_panics ls W H real = None.
+(* ------------------------------------------------------------------ draw_to_term, every width *)
+(** the guards compute with the rows of the Rust code ([wrapped_height_rs]: usize::MAX for a
+    non-empty line at width 0); nothing below depends on W *)
+Lemma paint_np W H : H < USIZE_MAX -> forall ls real, paint_panics ls W H real = None.
 Proof.
   intros HH. induction ls as [|l r IH]; intros real; cbn [paint_panics]; [reflexivity|].
   destruct (is_bar l) eqn:Eb; cbn [andb]; [|apply IH].
-  destruct (N.ltb_spec H (real + wrapped_height l W)); [reflexivity|].
-  destruct (N.leb_spec USIZE (real + wrapped_height l W)); [lia | apply IH].
+  destruct (N.ltb_spec H (N.min USIZE_MAX (real + wrapped_height_rs l W))); [reflexivity|].
+  destruct (N.leb_spec USIZE (real + wrapped_height_rs l W)); [|apply IH].
+  unfold USIZE, USIZE_MAX, U64, U64MAX in *. lia.
+Qed.
+
+Lemma paint_real_rs_le W H : H < USIZE_MAX -> forall ls real bp, real <= H ->
+  fst (paint_real_rs ls W H real bp) <= H.
+Proof.
+  intros HH. induction ls as [|l r IH]; intros real bp Hr; cbn [paint_real_rs fst]; [exact Hr|].
+  destruct (is_bar l) eqn:Eb; cbn [andb]; [|apply IH; exact Hr].
+  destruct (N.ltb_spec H (N.min USIZE_MAX (real + wrapped_height_rs l W))); [exact Hr|].
+  apply IH. unfold USIZE_MAX, U64MAX in *. lia.
+Qed.
+
+Lemma dt_shift0_le ls n al W : dt_shift0 ls n al W <= n.
+Proof. unfold dt_shift0. destruct al; [lia|]. destruct (_ <? _); lia. Qed.
+
+(** the count a draw writes back, for every width: at most one screen more than before *)
+Lemma dt_count_rs_le ls n al W H : H < USIZE_MAX -> dt_count_rs ls n al W H <= H + n.
+Proof.
+  intros HH. unfold dt_count_rs.
+  pose proof (paint_real_rs_le W H HH ls 0 false ltac:(lia)) as Hr.
+  destruct (paint_real_rs ls W H 0 false) as [real bp]. cbn [fst] in Hr.
+  pose proof (dt_shift0_le ls n al W). destruct (_ || _); lia.
 Qed.
 
 Lemma draw_shift_le al ls n W H : draw_shift al ls n W H <= n.
@@ -138,25 +120,76 @@ Qed.
 Lemma full_pad_shift ls sh H : full_pad ls sh H = true -> 0 < sh.
 Proof. unfold full_pad. destruct ls; [|discriminate]. intros Hx. apply andb_prop in Hx. destruct Hx as [Hx _]. apply N.ltb_lt in Hx. exact Hx. Qed.
 
+
 Lemma dt_np ls n al below W H : H < U16 -> n + U16 <= USIZE ->
   dt_panics ls n al below W H = None.
 Proof.
   intros HH Hn. unfold dt_panics.
-  set (in_arm := match al with Bottom => visual_line_count ls W <? n | Top => false end).
-  assert (E1 : in_arm && (n <? visual_line_count ls W) = false).
+  assert (HH' : H < USIZE_MAX) by (unfold U16, USIZE_MAX, U64MAX in *; lia).
+  set (in_arm := match al with Bottom => visual_line_count_rs ls W <? n | Top => false end).
+  assert (E1 : in_arm && (n <? visual_line_count_rs ls W) = false).
   { unfold in_arm. destruct al; [reflexivity|].
-    destruct (N.ltb_spec (visual_line_count ls W) n); [|reflexivity].
+    destruct (N.ltb_spec (visual_line_count_rs ls W) n); [|reflexivity].
     cbn [andb]. apply N.ltb_ge. lia. }
   rewrite E1.
-  set (sh := if in_arm then n - visual_line_count ls W else 0).
-  assert (E2 : negb (starts_with_text ls) && full_pad ls sh H && (sh <? 1) = false).
-  { destruct (full_pad ls sh H) eqn:Ef; [|now rewrite andb_false_r].
+  assert (E2 : negb (starts_with_text ls) && full_pad ls (dt_shift0 ls n al W) H && (dt_shift0 ls n al W <? 1) = false).
+  { destruct (full_pad ls (dt_shift0 ls n al W) H) eqn:Ef; [|now rewrite andb_false_r].
     apply full_pad_shift in Ef. rewrite andb_true_r.
-    assert ((sh <? 1) = false) as -> by (apply N.ltb_ge; lia). apply andb_false_r. }
-  rewrite E2, paint_np by (unfold U16, USIZE, U64 in *; lia).
-  pose proof (draw_to_term_n_le ls n al below W H).
-  destruct (N.leb_spec USIZE (snd (fst (draw_to_term ls n al below W H)))); [|reflexivity].
+    assert ((dt_shift0 ls n al W <? 1) = false) as -> by (apply N.ltb_ge; lia). apply andb_false_r. }
+  rewrite E2, paint_np by exact HH'.
+  pose proof (dt_count_rs_le ls n al W H HH').
+  destruct (N.leb_spec USIZE (dt_count_rs ls n al W H)); [|reflexivity].
   unfold U16, USIZE, U64 in *. lia.
+Qed.
+
+(** the arithmetic of the guards IS the model's wherever the model is faithful: for W >= 1 and
+    a frame whose row count does not saturate, [dt_count_rs] is the count [Draw.draw_to_term] returns *)
+Lemma vlc_rs_acc_eq ls W : 1 <= W -> forall a,
+  fold_left (fun acc l => acc + wrapped_height l W) ls a <= USIZE_MAX ->
+  fold_left (fun acc l => N.min USIZE_MAX (acc + wrapped_height_rs l W)) ls a
+  = fold_left (fun acc l => acc + wrapped_height l W) ls a.
+Proof.
+  intros HW. induction ls as [|l r IH]; intros a Hle; cbn [fold_left] in *; [reflexivity|].
+  assert (Hh : wrapped_height_rs l W = wrapped_height l W).
+  { unfold wrapped_height_rs. destruct (N.eqb_spec W 0); [lia | reflexivity]. }
+  rewrite Hh.
+  assert (Hmono : a + wrapped_height l W <= fold_left (fun acc l0 => acc + wrapped_height l0 W) r (a + wrapped_height l W)).
+  { rewrite visual_line_count_acc. lia. }
+  rewrite N.min_r by lia. apply IH. exact Hle.
+Qed.
+
+Lemma vlc_rs_eq ls W : 1 <= W -> visual_line_count ls W <= USIZE_MAX ->
+  visual_line_count_rs ls W = visual_line_count ls W.
+Proof. intros HW Hle. apply vlc_rs_acc_eq; assumption. Qed.
+
+Lemma paint_real_rs_model W H : 1 <= W -> H < USIZE_MAX -> forall ls real bp,
+  paint_real_rs ls W H real bp
+  = (real + bar_rows (painted ls W H real) W, bp || existsb is_bar (painted ls W H real)).
+Proof.
+  intros HW HH. induction ls as [|l r IH]; intros real bp; cbn [paint_real_rs painted].
+  - unfold bar_rows. cbn. rewrite orb_false_r. f_equal. lia.
+  - assert (Hh : wrapped_height_rs l W = wrapped_height l W).
+    { unfold wrapped_height_rs. destruct (N.eqb_spec W 0); [lia | reflexivity]. }
+    rewrite Hh.
+    assert (Et : (H <? N.min USIZE_MAX (real + wrapped_height l W)) = (H <? real + wrapped_height l W)).
+    { destruct (N.ltb_spec H (real + wrapped_height l W)); [apply N.ltb_lt | apply N.ltb_ge]; lia. }
+    rewrite Et. destruct (is_bar l && (H <? real + wrapped_height l W)) eqn:E.
+    + unfold bar_rows. cbn. rewrite orb_false_r. f_equal. lia.
+    + rewrite IH. cbn [existsb]. unfold bar_rows. cbn [filter].
+      destruct (is_bar l); [rewrite visual_line_count_cons|]; f_equal; try lia;
+        now rewrite ?orb_assoc, ?orb_false_r.
+Qed.
+
+Lemma dt_count_rs_model ls n al below W H : 1 <= W -> H < USIZE_MAX ->
+  visual_line_count ls W <= USIZE_MAX ->
+  dt_count_rs ls n al W H = snd (fst (draw_to_term ls n al below W H)).
+Proof.
+  intros HW HH Hfull. rewrite draw_to_term_count. unfold dt_count_rs, dt_shift0.
+  rewrite paint_real_rs_model, vlc_rs_eq by assumption. cbn [orb].
+  unfold draw_shift, bottom_shift. destruct al.
+  - destruct (_ || _); lia.
+  - destruct (N.ltb_spec (visual_line_count ls W) n); cbn [andb];
+      destruct (negb (starts_with_text ls) || existsb is_bar (painted ls W H 0)); lia.
 Qed.
 
 (* ------------------------------------------------------------------ MultiState level *)
@@ -216,21 +249,19 @@ Qed.
 Section Ms.
   Variable W H : N.
   Variable fails : N -> bool.
-  Hypothesis HW : 1 <= W.
   Hypothesis HH : H < U16.
 
   Lemma ms_draw_np m force extra now :
-    CoreInv m -> extra <> Some [] -> mp_fits m -> zombie_rows W m < USIZE ->
-    ms_draw_panics W H m force extra now = None.
+    CoreInv m -> extra <> Some [] -> mp_fits m -> ms_draw_panics W H m force extra now = None.
   Proof.
-    intros CI Hex Hfit Hrows. unfold ms_draw_panics.
+    intros CI Hex Hfit. unfold ms_draw_panics.
     destruct (ms_target m) as [|tg|i] eqn:Ht; try reflexivity.
     assert (Ex : match extra with Some [] => true | _ => false end = false).
     { destruct extra as [[|l r]|]; try reflexivity. congruence. }
     rewrite Ex.
     assert (Hb : forall i, In i (ms_order m) -> (N.to_nat i < length (ms_members m))%nat).
     { intros i Hi. apply (ci_bound m CI). left. exact Hi. }
-    rewrite scan_np; [|exact HW|exact Hb|exact Hrows].
+    rewrite scan_np by exact Hb.
     set (ht := _ || _).
     set (tg1 := if ht then tt_adjust_clear tg (ms_zombie_lines m) else tg).
     destruct (tt_allow_keeps tg1 (force || (0 <? visual_line_count (ms_orphans m) W)) now) as (En & _ & _).
@@ -249,10 +280,9 @@ Section Ms.
   Qed.
 
   Lemma ms_suspend_np m ws now c :
-    CoreInv m -> mp_fits m -> zombie_rows W m < USIZE ->
-    ms_suspend_panics W H fails m ws now c = None.
+    CoreInv m -> mp_fits m -> ms_suspend_panics W H fails m ws now c = None.
   Proof.
-    intros CI Hfit Hrows. unfold ms_suspend_panics. rewrite ms_clear_np by exact Hfit.
+    intros CI Hfit. unfold ms_suspend_panics. rewrite ms_clear_np by exact Hfit.
     unfold ms_clear. destruct (ms_target m) as [|tg|i] eqn:Ht.
     - rewrite Ht. reflexivity.
     - destruct (term_draw W H fails (tt_adjust_clear tg (ms_zombie_lines m)) [] c) as [[[tg2 e] c'] ok].
@@ -261,83 +291,18 @@ Section Ms.
       + eapply same_core_inv; [|exact CI]. repeat split.
       + discriminate.
       + intros tg' Ht'. cbn in Ht'. injection Ht' as <-. cbn. unfold U16, USIZE, U64. lia.
-      + exact Hrows.
     - rewrite Ht. reflexivity.
   Qed.
-
 End Ms.
-
-(* ------------------------------------------------------------------ rows of the composed frame *)
-Definition rows_of (W : N) (mems : list member) (order : list N) : N :=
-  visual_line_count (concat (map (member_lines mems) order)) W.
-
-Lemma rows_of_cons W mems i r :
-  rows_of W mems (i :: r) = member_vlc (nthN mems i member_default) W + rows_of W mems r.
-Proof.
-  unfold rows_of. cbn [map concat]. rewrite visual_line_count_app.
-  unfold member_lines, member_vlc. destruct (m_lines (nthN mems i member_default)); reflexivity.
-Qed.
-
-Lemma hz_rows_le W mems order : hz_rows W order mems <= rows_of W mems order.
-Proof.
-  induction order as [|i r IH]; [unfold hz_rows, rows_of; cbn; lia|].
-  rewrite hz_rows_cons, rows_of_cons. destruct (m_zombie _); lia.
-Qed.
-
-Lemma zombie_rows_le_frame W m : zombie_rows W m <= frame_rows W m.
-Proof. apply (hz_rows_le W (ms_members m) (ms_order m)). Qed.
-
-Lemma rows_of_ext W mems mems' order :
-  (forall i, In i order -> nthN mems' i member_default = nthN mems i member_default) ->
-  rows_of W mems' order = rows_of W mems order.
-Proof.
-  induction order as [|i r IH]; intros He; [reflexivity|].
-  rewrite !rows_of_cons, He by (left; reflexivity). f_equal. apply IH. intros j Hj. apply He. right. exact Hj.
-Qed.
-
-Lemma rows_of_filter_le W mems (p : N -> bool) order :
-  rows_of W mems (filter p order) <= rows_of W mems order.
-Proof.
-  induction order as [|i r IH]; [cbn; lia|].
-  cbn [filter]. destruct (p i); rewrite ?rows_of_cons; lia.
-Qed.
-
-Lemma frame_rows_remove W m idx : frame_rows W (ms_remove_idx m idx) <= frame_rows W m.
-Proof.
-  destruct (in_dec N.eq_dec idx (ms_free m)) as [Hf|Hf]; [rewrite remove_idx_free by exact Hf; lia|].
-  destruct (remove_idx_fields m idx Hf) as (Em & _ & Eo).
-  unfold frame_rows. fold (rows_of W (ms_members (ms_remove_idx m idx)) (ms_order (ms_remove_idx m idx))).
-  fold (rows_of W (ms_members m) (ms_order m)). rewrite Em, Eo.
-  rewrite (rows_of_ext W (ms_members m)).
-  - apply rows_of_filter_le.
-  - intros i Hi. apply filter_neq_In in Hi. apply nthN_updN_neq. intros Hc. apply (proj2 Hi). congruence.
-Qed.
-
-(** storing a frame in a slot that is not a zombie does not change the rows the scan adds up *)
-Lemma hz_rows_store W order mems idx bars :
-  m_zombie (nthN mems idx member_default) = false ->
-  hz_rows W order (updN mems (N.to_nat idx) (fun mem => mkmem (Some bars) (m_zombie mem))) = hz_rows W order mems.
-Proof.
-  intros Hz.
-  destruct (Nat.lt_ge_cases (N.to_nat idx) (length mems)) as [Hl|Hl]; [|rewrite updN_oob by exact Hl; reflexivity].
-  induction order as [|i r IH]; [reflexivity|].
-  rewrite !hz_rows_cons, IH. destruct (N.eq_dec idx i) as [<-|Hn].
-  - rewrite nthN_updN_eq by exact Hl. cbn [m_zombie]. rewrite Hz. reflexivity.
-  - rewrite nthN_updN_neq by exact Hn. reflexivity.
-Qed.
-
-Lemma zombie_rows_store W m idx texts bars : zflag m idx = false ->
-  zombie_rows W (ms_store m idx texts bars) = zombie_rows W m.
-Proof. intros Hz. unfold ms_store. apply (hz_rows_store W (ms_order m) (ms_members m) idx bars Hz). Qed.
 
 (* ------------------------------------------------------------------ bar level *)
 Definition keeps_target (f : bar -> bar) : Prop := forall x, b_target (f x) = b_target x.
 
-(** what a call through bar [b] needs: a member's slot is in the ordering and not a zombie; a
-    terminal of its own has a counter with room for [k] more screens *)
+(** what a call through bar [b] needs: a member's slot is in the ordering; a terminal of its own
+    has a counter with room for [k] more screens *)
 Definition bar_ready (k : N) (s : sys) (b : N) : Prop :=
   match b_target (get_bar s b) with
-  | TMulti idx => In idx (ms_order (s_mp s)) /\ zflag (s_mp s) idx = false
+  | TMulti idx => In idx (ms_order (s_mp s))
   | TTerm tg => tt_n tg + k * U16 <= USIZE
   | THidden => True
   end.
@@ -355,23 +320,19 @@ Proof.
   - rewrite upd_bar_oob by exact Hl. exact Hr.
 Qed.
 
+(** the conditions on the MultiState under which its draws reach no site *)
+Definition mp_ready (m : mstate) : Prop := CoreInv m /\ mp_fits m.
+
+Lemma mp_ready_store m idx texts bars :
+  mp_ready m -> In idx (ms_order m) -> mp_ready (ms_store m idx texts bars).
+Proof.
+  intros (CI & Hfit) Hi. split; [exact (mt_core _ _ _ (ms_store_trans m idx texts bars CI Hi)) | exact Hfit].
+Qed.
+
 Section BarLevel.
   Variable W H : N.
   Variable fails : N -> bool.
-  Hypothesis HW : 1 <= W.
   Hypothesis HH : H < U16.
-
-  (** the conditions on the MultiState under which its draws reach no site *)
-  Definition mp_ready (m : mstate) : Prop := CoreInv m /\ mp_fits m /\ zombie_rows W m < USIZE.
-
-  Lemma mp_ready_store m idx texts bars :
-    mp_ready m -> In idx (ms_order m) -> zflag m idx = false -> mp_ready (ms_store m idx texts bars).
-  Proof.
-    intros (CI & Hfit & Hrows) Hi Hz. split; [|split].
-    - exact (mt_core _ _ _ (ms_store_trans m idx texts bars CI Hi)).
-    - exact Hfit.
-    - rewrite zombie_rows_store by exact Hz. exact Hrows.
-  Qed.
 
   Lemma bar_draw_np s b force now :
     mp_ready (s_mp s) -> bar_ready 1 s b -> bar_draw_panics W H s b force now = None.
@@ -381,12 +342,12 @@ Section BarLevel.
     - destruct (tt_allow_keeps tg (force || finished (get_bar s b)) now) as (En & _ & _).
       destruct (tt_allow tg (force || finished (get_bar s b)) now) as [allowed tg1]. cbn [snd] in En.
       destruct allowed; cbn [negb]; [|reflexivity]. apply dt_np; [exact HH | lia].
-    - destruct Hr as [Hi Hz]. apply orelse_None. split.
-      + unfold ms_store_panics. rewrite oob_false; [reflexivity|]. apply (ci_bound _ (proj1 MR)). left. exact Hi.
+    - apply orelse_None. split.
+      + unfold ms_store_panics. rewrite oob_false; [reflexivity|]. apply (ci_bound _ (proj1 MR)). left. exact Hr.
       + destruct (mp_ready_store (s_mp s) idx []
-                    (match ms_width W (s_mp s) with Some _ => frame_of (get_bar s b) | None => [] end) MR Hi Hz)
-          as (CI' & Hfit' & Hrows').
-        apply ms_draw_np; auto. discriminate.
+                    (match ms_width W (s_mp s) with Some _ => frame_of (get_bar s b) | None => [] end) MR Hr)
+          as (CI' & Hfit').
+        apply (ms_draw_np W H fails HH); auto. discriminate.
   Qed.
 
   Lemma upd_draw_np s b f force now : keeps_target f ->
@@ -399,12 +360,12 @@ Section BarLevel.
     intros MR Hr. unfold bar_println_panics, bar_ready in *.
     destruct (b_target (get_bar s b)) as [|tg|idx]; [reflexivity| |].
     - apply dt_np; [exact HH | lia].
-    - destruct Hr as [Hi Hz]. apply orelse_None. split.
-      + unfold ms_store_panics. rewrite oob_false; [reflexivity|]. apply (ci_bound _ (proj1 MR)). left. exact Hi.
+    - apply orelse_None. split.
+      + unfold ms_store_panics. rewrite oob_false; [reflexivity|]. apply (ci_bound _ (proj1 MR)). left. exact Hr.
       + destruct (mp_ready_store (s_mp s) idx (text_lines msg)
-                    (match ms_width W (s_mp s) with Some _ => frame_of (get_bar s b) | None => [] end) MR Hi Hz)
-          as (CI' & Hfit' & Hrows').
-        apply ms_draw_np; auto. discriminate.
+                    (match ms_width W (s_mp s) with Some _ => frame_of (get_bar s b) | None => [] end) MR Hr)
+          as (CI' & Hfit').
+        apply (ms_draw_np W H fails HH); auto. discriminate.
   Qed.
 
   Lemma term_draw_n_le tg ls c :
@@ -428,7 +389,7 @@ Section BarLevel.
       unfold bar_ready. change (get_bar (set_s_calls ?x c2) b) with (get_bar x b).
       rewrite get_upd_same by (apply target_inrange; rewrite Ht; discriminate).
       cbn [b_target set_b_target]. unfold U16 in *. lia.
-    - destruct MR as (CI & Hfit & Hrows). apply ms_suspend_np; assumption.
+    - destruct MR as (CI & Hfit). apply (ms_suspend_np W H fails HH); assumption.
   Qed.
 End BarLevel.
 
@@ -458,21 +419,19 @@ Proof. intros x. destruct k; cbn; destruct (b_len x); reflexivity. Qed.
 Section Step.
   Variable W H : N.
   Variable fails : N -> bool.
-  Hypothesis HW : 1 <= W.
   Hypothesis HH : H < U16.
 
-  Lemma minv_mp_ready s : MInv s -> counters_fit s -> frame_rows W (s_mp s) < USIZE -> mp_ready W (s_mp s).
+  Lemma minv_mp_ready s : MInv s -> counters_fit s -> mp_ready (s_mp s).
   Proof.
-    intros MI [_ Hc] Hrows. split; [apply MInv_core; exact MI | split].
-    - intros tg Ht. specialize (Hc tg Ht). unfold U16 in *. lia.
-    - pose proof (zombie_rows_le_frame W (s_mp s)). lia.
+    intros MI [_ Hc]. split; [apply MInv_core; exact MI|].
+    intros tg Ht. specialize (Hc tg Ht). unfold U16 in *. lia.
   Qed.
 
   Lemma minv_bar_ready s b : MInv s -> counters_fit s -> alive s b = true -> bar_ready 2 s b.
   Proof.
     intros MI [Hc _] Ha. unfold bar_ready. destruct (b_target (get_bar s b)) as [|tg|idx] eqn:Ht; [exact I| |].
     - apply (Hc b tg Ht).
-    - apply (mi_alive s MI b idx Ha Ht).
+    - apply (proj1 (mi_alive s MI b idx Ha Ht)).
   Qed.
 
   Lemma bar_ready_mono s b : bar_ready 2 s b -> bar_ready 1 s b.
@@ -495,11 +454,11 @@ Section Step.
   Qed.
 
   Lemma step_np s a now o :
-    MInv s -> Refines s a -> counters_fit s -> frame_rows W (s_mp s) < USIZE ->
+    MInv s -> Refines s a -> counters_fit s ->
     op_ok s o = true -> step_panics W H fails s now o = None.
   Proof.
-    intros MI RF Hcf Hrows Hk.
-    pose proof (minv_mp_ready s MI Hcf Hrows) as MR.
+    intros MI RF Hcf Hk.
+    pose proof (minv_mp_ready s MI Hcf) as MR.
     assert (Hal : forall b, op_bar o = Some b -> alive s b = true).
     { intros b Hb. pose proof Hk as Hk'. unfold op_ok in Hk'. rewrite Hb in Hk'. apply andb_prop in Hk'. tauto. }
     assert (R2 : forall b, op_bar o = Some b -> bar_ready 2 s b).
@@ -507,31 +466,31 @@ Section Step.
     assert (R1 : forall b, op_bar o = Some b -> bar_ready 1 s b).
     { intros b Hb. apply bar_ready_mono, R2, Hb. }
     destruct o; cbn [step_panics]; try reflexivity;
-      try (apply (upd_draw_np W H fails HW HH); [intros x; reflexivity | exact MR | apply R1; reflexivity]);
-      try (apply (bar_draw_np W H fails HW HH); [exact MR | apply R1; reflexivity]).
+      try (apply (upd_draw_np W H fails HH); [intros x; reflexivity | exact MR | apply R1; reflexivity]);
+      try (apply (bar_draw_np W H fails HH); [exact MR | apply R1; reflexivity]).
     - (* inc *) unfold bar_pos_update_panics.
       destruct (ap_allow _ now) as [al ap']. destruct al; [|reflexivity].
-      unfold bar_tick_panics. apply (bar_draw_np W H fails HW HH); auto.
+      unfold bar_tick_panics. apply (bar_draw_np W H fails HH); auto.
       repeat (apply bar_ready_upd; [intros x; reflexivity|]). apply R1. reflexivity.
     - (* dec *) unfold bar_pos_update_panics.
       destruct (ap_allow _ now) as [al ap']. destruct al; [|reflexivity].
-      unfold bar_tick_panics. apply (bar_draw_np W H fails HW HH); auto.
+      unfold bar_tick_panics. apply (bar_draw_np W H fails HH); auto.
       repeat (apply bar_ready_upd; [intros x; reflexivity|]). apply R1. reflexivity.
     - (* set_position *) unfold bar_pos_update_panics.
       destruct (ap_allow _ now) as [al ap']. destruct al; [|reflexivity].
-      unfold bar_tick_panics. apply (bar_draw_np W H fails HW HH); auto.
+      unfold bar_tick_panics. apply (bar_draw_np W H fails HH); auto.
       repeat (apply bar_ready_upd; [intros x; reflexivity|]). apply R1. reflexivity.
-    - (* println *) apply (bar_println_np W H fails HW HH); auto.
-    - (* suspend *) apply (bar_suspend_np W H fails HW HH); auto.
-    - (* finish *) unfold bar_finish_panics. apply (upd_draw_np W H fails HW HH); auto. apply keeps_finish.
-    - (* finish_using_style *) unfold bar_finish_panics. apply (upd_draw_np W H fails HW HH); auto. apply keeps_finish.
+    - (* println *) apply (bar_println_np W H fails HH); auto.
+    - (* suspend *) apply (bar_suspend_np W H fails HH); auto.
+    - (* finish *) unfold bar_finish_panics. apply (upd_draw_np W H fails HH); auto. apply keeps_finish.
+    - (* finish_using_style *) unfold bar_finish_panics. apply (upd_draw_np W H fails HH); auto. apply keeps_finish.
     - (* drop *)
       assert (Ha : alive s b = true) by (apply Hal; reflexivity).
       unfold bar_drop_panics. destruct (finished (get_bar s b)) eqn:Hf.
       + unfold mark_zombie_panics. destruct (b_target (get_bar s b)) as [|tg|idx] eqn:Ht; try reflexivity.
         apply ms_mark_np; [apply MInv_core; exact MI|]. apply (mi_alive s MI b idx Ha Ht).
       + apply orelse_None. split.
-        * unfold bar_finish_panics. apply (upd_draw_np W H fails HW HH); auto. apply keeps_finish.
+        * unfold bar_finish_panics. apply (upd_draw_np W H fails HH); auto. apply keeps_finish.
         * destruct (nonstruct_sim W H fails s a now (OFinish b (b_on_finish (get_bar s b))) MI RF) as (r & MI1 & _).
           { unfold op_ok. cbn. rewrite Ha. reflexivity. } { reflexivity. }
           pose proof (step_bars_pres W H fails s now (OFinish b (b_on_finish (get_bar s b))) eq_refl) as BP.
@@ -557,21 +516,19 @@ Section Step.
       destruct (b_target (get_bar s b)) as [|tg|idx] eqn:Ht; try reflexivity.
       cbn [s_mp upd_bar set_s_bars].
       destruct (mi_alive s MI b idx Ha Ht) as [Hi _].
-      destruct MR as (CI & Hfit & Hz).
+      destruct MR as (CI & Hfit).
       apply orelse_None. split; [apply remove_idx_np; auto|].
-      apply (ms_draw_np W H fails HW HH); auto.
+      apply (ms_draw_np W H fails HH); auto.
       + apply remove_idx_core; auto.
       + discriminate.
       + intros tg Htg. destruct (remove_idx_other (s_mp s) idx) as (_ & _ & Ez & Et).
         rewrite Ez. rewrite Et in Htg. apply Hfit. exact Htg.
-      + pose proof (zombie_rows_le_frame W (ms_remove_idx (s_mp s) idx)).
-        pose proof (frame_rows_remove W (s_mp s) idx). lia.
     - (* mp.println *)
-      destruct MR as (CI & Hfit & Hz). apply (ms_draw_np W H fails HW HH); auto.
+      destruct MR as (CI & Hfit). apply (ms_draw_np W H fails HH); auto.
       destruct m as [|c r]; [discriminate|].
       intros Hc. injection Hc as Hc. apply map_eq_nil in Hc. revert Hc. apply lines_of_nonempty. discriminate.
-    - (* mp.suspend *) destruct MR as (CI & Hfit & Hz). apply (ms_suspend_np W H fails HW HH); auto.
-    - (* mp.clear *) destruct MR as (CI & Hfit & Hz). apply (ms_clear_np W H fails HW HH); auto.
+    - (* mp.suspend *) destruct MR as (CI & Hfit). apply (ms_suspend_np W H fails HH); auto.
+    - (* mp.clear *) destruct MR as (CI & Hfit). apply (ms_clear_np W H fails HH); auto.
   Qed.
 End Step.
 
@@ -588,25 +545,23 @@ Qed.
 Section Exact.
   Variable W H : N.
   Variable fails : N -> bool.
-  Hypothesis HW : 1 <= W.
   Hypothesis HH : H < U16.
 
   Theorem step_misuse_exact s a now o :
-    MInv s -> Refines s a -> counters_fit s -> frame_rows W (s_mp s) < USIZE ->
+    MInv s -> Refines s a -> counters_fit s ->
     handles_alive s o = true -> step_panics W H fails s now o = misuse_site s o.
   Proof.
-    intros MI RF Hcf Hrows Hh. destruct (misuse_site s o) as [p|] eqn:Em.
+    intros MI RF Hcf Hh. destruct (misuse_site s o) as [p|] eqn:Em.
     - unfold misuse_site in Em. destruct o; try discriminate Em.
       destruct loc as [|q|q|r|r]; try discriminate Em; cbn [step_panics insert_ref_panics];
         destruct (is_member s r); try discriminate Em; cbn [orelse]; exact Em.
-    - apply (step_np W H fails HW HH s a); auto. rewrite op_ok_split, Hh, Em. reflexivity.
+    - apply (step_np W H fails HH s a); auto. rewrite op_ok_split, Hh, Em. reflexivity.
   Qed.
 End Exact.
 
 (* ------------------------------------------------------------------ histories *)
 Section Runs.
   Variable W H : N.
-  Hypothesis HW : 1 <= W.
   Hypothesis HH : H < U16.
 
   Lemma reach_inv fails s0 ops : init_ok s0 -> hist_ok W H fails s0 ops ->
@@ -620,24 +575,24 @@ Section Runs.
       oracle [fails'] (the same or another one) *)
   Theorem no_panic_reachable fails fails' s0 ops now o :
     init_ok s0 -> hist_ok W H fails s0 ops ->
-    counters_fit (run W H fails s0 ops) -> frame_rows W (s_mp (run W H fails s0 ops)) < USIZE ->
+    counters_fit (run W H fails s0 ops) ->
     op_ok (run W H fails s0 ops) o = true ->
     step_panics W H fails' (run W H fails s0 ops) now o = None.
   Proof.
-    intros Hi Hh Hcf Hrows Hk. destruct (reach_inv fails s0 ops Hi Hh) as (a & MI & RF).
-    apply (step_np W H fails' HW HH _ a); assumption.
+    intros Hi Hh Hcf Hk. destruct (reach_inv fails s0 ops Hi Hh) as (a & MI & RF).
+    apply (step_np W H fails' HH _ a); assumption.
   Qed.
 
   (** (2): with live handles, a call panics iff it is one of the enumerated misuses, at that site *)
   Theorem misuse_panics_exactly fails fails' s0 ops now o :
     init_ok s0 -> hist_ok W H fails s0 ops ->
-    counters_fit (run W H fails s0 ops) -> frame_rows W (s_mp (run W H fails s0 ops)) < USIZE ->
+    counters_fit (run W H fails s0 ops) ->
     handles_alive (run W H fails s0 ops) o = true ->
     step_panics W H fails' (run W H fails s0 ops) now o = misuse_site (run W H fails s0 ops) o
     /\ (step_panics W H fails' (run W H fails s0 ops) now o = None <-> op_ok (run W H fails s0 ops) o = true).
   Proof.
-    intros Hi Hh Hcf Hrows Hha. destruct (reach_inv fails s0 ops Hi Hh) as (a & MI & RF).
-    pose proof (step_misuse_exact W H fails' HW HH _ a now o MI RF Hcf Hrows Hha) as E.
+    intros Hi Hh Hcf Hha. destruct (reach_inv fails s0 ops Hi Hh) as (a & MI & RF).
+    pose proof (step_misuse_exact W H fails' HH _ a now o MI RF Hcf Hha) as E.
     split; [exact E|]. rewrite E, op_ok_split, Hha. cbn [andb].
     destruct (misuse_site (run W H fails s0 ops) o); split; intros Hx; try reflexivity; discriminate Hx.
   Qed.
@@ -647,8 +602,8 @@ Section Runs.
     hist_ok W H fails s ops -> hist_fits W H fails s ops -> run_panics W H fails s ops = None.
   Proof.
     induction ops as [|[now o] rest IH]; intros s a MI RF Hh Hf; cbn [run_panics]; [reflexivity|].
-    destruct Hh as [Hk Hr]. destruct Hf as (Hcf & Hrows & Hf).
-    rewrite (step_np W H fails HW HH s a now o MI RF Hcf Hrows Hk).
+    destruct Hh as [Hk Hr]. destruct Hf as (Hcf & Hf).
+    rewrite (step_np W H fails HH s a now o MI RF Hcf Hk).
     destruct (step_sim W H fails s a now o MI RF Hk) as (r & MI' & RF').
     rewrite (IH _ _ MI' RF' Hr Hf). reflexivity.
   Qed.
@@ -658,7 +613,6 @@ Section Runs.
     run_panics W H fails s0 ops = None.
   Proof. intros Hi Hh Hf. destruct (init_inv W (fun _ => false) s0 Hi) as [MI RF]. eapply run_no_panic; eauto. Qed.
 End Runs.
-
 (* ------------------------------------------------------------------ decidable hypotheses, witnesses *)
 Lemma counters_fit_b_ok s : counters_fit_b s = true -> counters_fit s.
 Proof.
@@ -673,8 +627,8 @@ Qed.
 Lemma hist_fits_b_ok W H fails ops : forall s, hist_fits_b W H fails s ops = true -> hist_fits W H fails s ops.
 Proof.
   induction ops as [|[now o] r IH]; intros s Hb; cbn [hist_fits hist_fits_b] in *; [exact I|].
-  apply andb_prop in Hb. destruct Hb as [Hb Hr]. apply andb_prop in Hb. destruct Hb as [Hc Hf].
-  split; [apply counters_fit_b_ok; exact Hc | split; [apply N.ltb_lt; exact Hf | apply IH; exact Hr]].
+  apply andb_prop in Hb. destruct Hb as [Hc Hr].
+  split; [apply counters_fit_b_ok; exact Hc | apply IH; exact Hr].
 Qed.
 
 Lemma hist_ok_b_ok W H fails ops : forall s, hist_ok_b W H fails s ops = true -> hist_ok W H fails s ops.
@@ -696,36 +650,44 @@ Qed.
 
 (** FINDING (zero-width terminal): the clause fails at W = 0.  Two dropped bars with non-empty
     frames at the head of the ordering: the zombie scan of the next draw adds usize::MAX twice. *)
-Lemma zero_width_refuted :
-  init_ok np_sys /\ hist_ok 0 10 np_nofail np_sys np_ops /\ hist_fits 0 10 np_nofail np_sys np_ops
-  /\ run_panics 0 10 np_nofail np_sys np_ops = None
-  /\ let s := run 0 10 np_nofail np_sys np_ops in
-     counters_fit s /\ frame_rows 0 (s_mp s) < USIZE
-     /\ op_ok s (OTick 3) = true /\ op_ok s (OMPrintln [104]) = true
-     /\ step_panics 0 10 np_nofail s 6 (OTick 3) = Some P_draw_adjust_add
-     /\ step_panics 0 10 np_nofail s 6 (OMPrintln [104]) = Some P_draw_adjust_add
-     /\ step_panics 1 10 np_nofail (run 1 10 np_nofail np_sys np_ops) 6 (OTick 3) = None.
+
+(** REGRESSION (finding D31, fixed by /repo f8fa07f).  On a zero-width terminal the OLD guard
+    ([step_panics_pre_f8fa07f]: `adjust += line_count`) fires after [np_ops] - two dropped bars with
+    non-empty frames at the head of the ordering, usize::MAX rows each -; the guards of the current
+    code do not, and the whole history (and [np_ops2] under faults) runs without reaching a site at
+    W = 0 as well *)
+Lemma zero_width_regression :
+  init_ok np_sys /\ hist_ok 0 10 np_nofail np_sys (np_ops ++ [(6, OTick 3)])
+  /\ hist_fits 0 10 np_nofail np_sys (np_ops ++ [(6, OTick 3)])
+  /\ run_panics_pre_f8fa07f 0 10 np_nofail np_sys (np_ops ++ [(6, OTick 3)]) = Some (14%nat, P_draw_adjust_add)
+  /\ step_panics_pre_f8fa07f 0 10 np_nofail (run 0 10 np_nofail np_sys np_ops) 6 (OMPrintln [104]) = Some P_draw_adjust_add
+  /\ run_panics_pre_f8fa07f 1 10 np_nofail np_sys (np_ops ++ [(6, OTick 3)]) = None
+  /\ run_panics 0 10 np_nofail np_sys (np_ops ++ [(6, OTick 3)]) = None
+  /\ step_panics 0 10 np_nofail (run 0 10 np_nofail np_sys np_ops) 6 (OMPrintln [104]) = None.
 Proof.
   split; [apply init_ok_b_ok; vm_compute; reflexivity|].
   split; [apply hist_ok_b_ok; vm_compute; reflexivity|].
   split; [apply hist_fits_b_ok; vm_compute; reflexivity|].
-  split; [vm_compute; reflexivity|]. cbv zeta.
-  split; [apply counters_fit_b_ok; vm_compute; reflexivity|].
-  split; [vm_compute; reflexivity|].
   repeat split; vm_compute; reflexivity.
 Qed.
 
 (** non-vacuity of the positive theorems: a valid history with faults that goes through
     insert_after / insert_before / insert_from_back, a re-add, suspend, remove, mark_zombie at the
-    head, a flagged zombie reaped by a later draw, clear - every hypothesis holds at every state *)
+    head, a flagged zombie reaped by a later draw, clear - every hypothesis holds at every state,
+    on a 7x4 terminal and on a ZERO-WIDTH one *)
 Lemma nonvacuous_history :
   init_ok np_sys /\ hist_ok 7 4 np_fails2 np_sys np_ops2 /\ hist_fits 7 4 np_fails2 np_sys np_ops2
   /\ run_panics 7 4 np_fails2 np_sys np_ops2 = None
+  /\ hist_ok 0 4 np_fails2 np_sys np_ops2 /\ hist_fits 0 4 np_fails2 np_sys np_ops2
+  /\ run_panics 0 4 np_fails2 np_sys np_ops2 = None
   /\ map (fun k => ms_order (s_mp (run 7 4 np_fails2 np_sys (firstn k np_ops2)))) [4; 13; 16; 17; 19; 21]%nat
      = [[2; 0; 3; 1]; [2; 0; 1]; [2; 0; 1]; [0; 1]; [1]; []]
   /\ s_calls (run 7 4 np_fails2 np_sys np_ops2) <> s_calls (run 7 4 np_nofail np_sys np_ops2).
 Proof.
   split; [apply init_ok_b_ok; vm_compute; reflexivity|].
+  split; [apply hist_ok_b_ok; vm_compute; reflexivity|].
+  split; [apply hist_fits_b_ok; vm_compute; reflexivity|].
+  split; [vm_compute; reflexivity|].
   split; [apply hist_ok_b_ok; vm_compute; reflexivity|].
   split; [apply hist_fits_b_ok; vm_compute; reflexivity|].
   split; [vm_compute; reflexivity|]. split; [vm_compute; reflexivity|]. vm_compute. discriminate.
@@ -1001,13 +963,12 @@ End Growth2.
 (* ------------------------------------------------------------------ fresh targets: no hypothesis on the counters *)
 Section Fresh.
   Variable W H : N.
-  Hypothesis HW : 1 <= W.
   Hypothesis HH : H < U16.
 
   Lemma run_cb fails ops : forall B s, cbound B s ->
     cbound (B + 2 * H * N.of_nat (length ops)) (run W H fails s ops).
   Proof.
-    clear HW HH. induction ops as [|[now o] r IH]; intros B s CB; cbn [run length].
+    clear HH. induction ops as [|[now o] r IH]; intros B s CB; cbn [run length].
     - eapply cbound_mono; [|exact CB]. lia.
     - eapply cbound_mono; [|apply IH, (step_cb W H fails B s now o CB)]. lia.
   Qed.
@@ -1021,30 +982,29 @@ Section Fresh.
 
   Lemma counters_zero_cb s : counters_zero s -> cbound 0 s.
   Proof.
-    clear HW HH. intros [Hb Hr]. split; [|unfold region_count; lia].
+    clear HH. intros [Hb Hr]. split; [|unfold region_count; lia].
     eapply Forall_impl; [|exact Hb]. intros x. unfold bar_le. destruct (b_target x); auto. lia.
   Qed.
 
   Lemma calls_bound n : n < CALLS_MAX -> 2 * H * n + 2 * U16 <= USIZE.
   Proof. unfold CALLS_MAX, U16, USIZE, U64 in *. nia. Qed.
 
-  Lemma hist_fits_of_rows fails ops : forall B s, cbound B s ->
-    B + 2 * H * N.of_nat (length ops) + 2 * U16 <= USIZE ->
-    hist_rows W H fails s ops -> hist_fits W H fails s ops.
+
+  Lemma hist_fits_of_cbound fails ops : forall B s, cbound B s ->
+    B + 2 * H * N.of_nat (length ops) + 2 * U16 <= USIZE -> hist_fits W H fails s ops.
   Proof.
-    induction ops as [|[now o] r IH]; intros B s CB HB Hr; cbn [hist_fits hist_rows length] in *; [exact I|].
-    destruct Hr as [Hr0 Hr]. split; [apply (cbound_fits B); [exact CB | lia]|]. split; [exact Hr0|].
-    apply (IH (B + 2 * H)); [apply step_cb; exact CB | lia | exact Hr].
+    induction ops as [|[now o] r IH]; intros B s CB HB; cbn [hist_fits length] in *; [exact I|].
+    split; [apply (cbound_fits B); [exact CB | lia]|].
+    apply (IH (B + 2 * H)); [apply step_cb; exact CB | lia].
   Qed.
 
   (** (1) without any hypothesis on the counters: targets created fresh, fewer than 2^46 calls *)
   Theorem no_panic_fresh fails fails' s0 ops now o :
     init_ok s0 -> counters_zero s0 -> hist_ok W H fails s0 ops -> N.of_nat (length ops) < CALLS_MAX ->
-    frame_rows W (s_mp (run W H fails s0 ops)) < USIZE ->
     op_ok (run W H fails s0 ops) o = true ->
     step_panics W H fails' (run W H fails s0 ops) now o = None.
   Proof.
-    intros Hi Hz Hh Hn Hrows Hk. apply (no_panic_reachable W H HW HH fails fails' s0 ops now o); auto.
+    intros Hi Hz Hh Hn Hk. apply (no_panic_reachable W H HH fails fails' s0 ops now o); auto.
     apply (cbound_fits (0 + 2 * H * N.of_nat (length ops))).
     - apply run_cb, counters_zero_cb, Hz.
     - pose proof (calls_bound _ Hn). lia.
@@ -1053,10 +1013,10 @@ Section Fresh.
   (** (3) the same for whole histories under an arbitrary fault oracle *)
   Theorem run_no_panic_fresh fails s0 ops :
     init_ok s0 -> counters_zero s0 -> hist_ok W H fails s0 ops -> N.of_nat (length ops) < CALLS_MAX ->
-    hist_rows W H fails s0 ops -> run_panics W H fails s0 ops = None.
+    run_panics W H fails s0 ops = None.
   Proof.
-    intros Hi Hz Hh Hn Hr. apply (run_no_panic_init W H HW HH); auto.
-    apply (hist_fits_of_rows fails ops 0 s0); [apply counters_zero_cb, Hz | | exact Hr].
+    intros Hi Hz Hh Hn. apply (run_no_panic_init W H HH); auto.
+    apply (hist_fits_of_cbound fails ops 0 s0); [apply counters_zero_cb, Hz|].
     pose proof (calls_bound _ Hn). lia.
   Qed.
 
@@ -1066,7 +1026,7 @@ Section Fresh.
     (forall b tg, b_target (get_bar s b) = TTerm tg -> tt_n tg <= 2 * H * N.of_nat (length ops))
     /\ region_count (s_mp s) <= 2 * H * N.of_nat (length ops).
   Proof.
-    clear HW HH. intros Hz. cbv zeta. destruct (run_cb fails ops 0 s0 (counters_zero_cb s0 Hz)) as [Hb Hr]. split.
+    clear HH. intros Hz. cbv zeta. destruct (run_cb fails ops 0 s0 (counters_zero_cb s0 Hz)) as [Hb Hr]. split.
     - intros b tg Ht. pose proof (get_bar_le _ _ b Hb) as Hg. unfold bar_le in Hg. rewrite Ht in Hg. lia.
     - lia.
   Qed.
@@ -1080,8 +1040,6 @@ Proof.
   - apply N.eqb_eq. exact Hmp.
 Qed.
 
-Lemma fresh_example : counters_zero np_sys /\ N.of_nat (length np_ops2) < CALLS_MAX /\ hist_rows 7 4 np_fails2 np_sys np_ops2.
-Proof.
-  split; [apply counters_zero_b_ok; vm_compute; reflexivity|]. split; [vm_compute; reflexivity|].
-  cbn [hist_rows np_ops2]. repeat split; vm_compute; reflexivity.
-Qed.
+
+Lemma fresh_example : counters_zero np_sys /\ N.of_nat (length np_ops2) < CALLS_MAX.
+Proof. split; [apply counters_zero_b_ok; vm_compute; reflexivity | vm_compute; reflexivity]. Qed.
